@@ -190,11 +190,12 @@ def spline(potential_forms, potential_form_builder):
 
   spline_factory = [s for s in spline_factories if s.spline_keyword == pot2.potential_form ][0]
 
+  # pot1 and pot3 can themselves be modifiers e.g. sum(...), so log the definitions rather than a potential_form attribute.
   logger.debug("spline modifier: connecting '{}' with {} to '{}' in range {} to {}".format(
-    pot1.potential_form,
+    pot1,
     pot2.potential_form,
-    pot2.potential_form,
-    detach_point, attach_point))
+    pot3,
+    detach_point_r, attach_point_r))
 
   # Now build the spline object
   try:
